@@ -59,6 +59,7 @@ type treeCase struct {
 	splits   bool
 	reopened int
 	quiet    bool // bulk phases: log only the Set itself (Stats / read-back every 4096 operations)
+	finalGets int // > 0: read back only that many sampled keys at the end (IterateKV has compared all pairs)
 }
 
 func (c *treeCase) input() string {
@@ -305,8 +306,19 @@ func (c *treeCase) iterate(mod uint64, salt uint64) {
 		return
 	}
 	var b strings.Builder
+	rest := seen
+	for len(rest) > 200 { // long lists go in pieces
+		b.Reset()
+		b.WriteString("iterpart")
+		for _, x := range rest[:200] {
+			fmt.Fprintf(&b, " %d %d %d", x.k, x.v, x.nv)
+		}
+		c.r.Emit("%s", b.String())
+		rest = rest[200:]
+	}
+	b.Reset()
 	fmt.Fprintf(&b, "iter %d", len(seen))
-	for _, x := range seen {
+	for _, x := range rest {
 		fmt.Fprintf(&b, " %d %d %d", x.k, x.v, x.nv)
 	}
 	c.r.Emit("%s", b.String())
@@ -655,7 +667,11 @@ func (c *treeCase) mixedOps(n int, g *keyGen, allowReset bool) {
 func (c *treeCase) finish() {
 	if !c.dead {
 		c.walk()
-		c.sweep(true)
+		if c.finalGets > 0 && len(c.usedList) > c.finalGets {
+			c.sampleGets(c.finalGets)
+		} else {
+			c.sweep(true)
+		}
 	}
 	c.r.Cases++
 	if c.splits && c.recycled {
@@ -1114,7 +1130,7 @@ func streamTreeGrow(r *Run) {
 	debug.SetPanicOnFault(true)
 	pageSizes := []int{512}
 	if r.Scale >= 2 {
-		pageSizes = append(pageSizes, 144, 4096)
+		pageSizes = append(pageSizes, 144, 1024)
 	}
 	id := 0
 	const stride = uint64(1) << 20
@@ -1124,20 +1140,23 @@ func streamTreeGrow(r *Run) {
 		z.VerifSetPageSize(ps)
 		_, mk := z.VerifPageSize()
 		h := mk / 2 // keys an old leaf holds after ascending insertion
-		firstGrow := newGrowTracker(ps).nextGrowPage()
+		spread := 1 // split only every spread-th old leaf, so that no inner node overflows
+		if mk < 31 {
+			spread = 2
+		}
 		dry := z.NewTree("verif-dry")
+		dg := newGrowTracker(ps)
 		splits, wantSplit, iStar, m := 0, 0, uint64(0), 0
-		for i := uint64(1); i < 1<<22; i++ {
+		for i := uint64(1); i < 600000 && iStar == 0; i++ {
 			before, np := dry.VerifRootKeys(), dry.Stats().NumPages
+			grow := dg.nextGrowPage()
 			dry.Set(i*stride, i)
 			after := dry.Stats().NumPages
-			if after+1 > firstGrow {
-				break
-			}
+			dg.advance(after + 1)
 			if dry.VerifRootKeys() < before {
 				splits++
-				fill := firstGrow - (after - np - 1) - (np + 1)
-				if fill >= 0 && uint64(fill)+2 <= (i-1)/uint64(h) {
+				fill := grow - (after - np - 1) - (np + 1)
+				if fill >= 0 && uint64(fill)*uint64(spread)+2 <= (i-1)/uint64(h) {
 					wantSplit, iStar, m = splits, i, after-np
 				}
 			}
@@ -1166,7 +1185,7 @@ func streamTreeGrow(r *Run) {
 			}
 			growPage := g.nextGrowPage()
 			fillers := growPage - pos - g.next
-			if fillers < 0 || uint64(fillers) > (iStar-1)/uint64(h)-2 {
+			if fillers < 0 || uint64(fillers)*uint64(spread) > (iStar-1)/uint64(h)-2 {
 				r.Count("grow_cannot_line_up")
 				c.finish()
 				continue
@@ -1174,7 +1193,7 @@ func streamTreeGrow(r *Run) {
 			ok := true
 			for j := 0; j < fillers && ok && !c.dead; j++ {
 				np := c.t.Stats().NumPages
-				base := (uint64(h)*uint64(j) + 1) * stride
+				base := (uint64(h)*uint64(j*spread) + 1) * stride
 				for f := uint64(1); f <= uint64(mk-h) && !c.dead; f++ {
 					c.set(base+f, base+f)
 				}
@@ -1203,14 +1222,15 @@ func streamTreeGrow(r *Run) {
 				r.Count("grow_missed")
 			}
 			c.walk()
+			c.iterate(0, 0) // includes the visit-every-live-pair-once oracle
 			c.quiet = true
-			c.sweep(true)
-			c.quiet = false
-			c.iterate(0, 0)
 			for i := iStar + 1; i < iStar+300 && !c.dead; i++ {
 				c.set(i*stride, i)
 			}
-			c.finish()
+			if r.Scale < 2 {
+				c.finalGets = 20000
+			}
+			c.finish() // walk + Get on (a sample of) the keys ever used
 		}
 	}
 }
